@@ -147,13 +147,13 @@ contract(MC + "._bnode_merging_strategy", params={},
     requires=GROUP_PRE + ["self._bnode_constraint is not None"],
     ensures=["self._dominant_constraint is not None", "has_class(some(self._dominant_constraint), 'Statement')", "some(self._dominant_constraint)._serializer_object is not None",
              "some(self._dominant_constraint)._st_property == old(self._constraints[0]._st_property)", "some(self._dominant_constraint)._is_inverse == old(self._constraints[0]._is_inverse)"] + MC_WEAK, raises=[],
-    modifies=["MC._dominant_constraint[self]", "MC._constraints[self]", "alloc"], props=["C04", "C01", "C02"],
+    modifies=["MC._dominant_constraint[self]", "MC._constraints[self]", "alloc"], props=["C04", "C01", "C02", "C14", "C12"],
     note="IRI and BNode values with or without typed values: a dominant constraint is always chosen, nothing is dereferenced through None")
 contract(MC + "._no_bnode_merging_strategy", params={},
     requires=GROUP_PRE + ["self._bnode_constraint is None", "self._shape_constraints is not None"],
     ensures=["self._dominant_constraint is not None", "has_class(some(self._dominant_constraint), 'Statement')", "some(self._dominant_constraint)._serializer_object is not None",
              "some(self._dominant_constraint)._st_property == old(self._constraints[0]._st_property)", "some(self._dominant_constraint)._is_inverse == old(self._constraints[0]._is_inverse)"] + MC_WEAK, raises=[],
-    modifies=["MC._dominant_constraint[self]", "MC._constraints[self]"], props=["C04", "C01", "C02"],
+    modifies=["MC._dominant_constraint[self]", "MC._constraints[self]"], props=["C04", "C01", "C02", "C14", "C12"],
     note="also when the threshold removed the plain IRI kind and only shape references are left")
 
 contract(MC + ".__init__", params={"initial_constraint": Opt(Statement), "statement_serializer_factory": Opt(SerFactory), "namespaces_dict": Opt(NSD)},
